@@ -202,39 +202,8 @@ spec fn covers(item: CacheItem, range: ChunkRange) -> bool { item.range.start <=
             forall|j: int| 0 <= j < vx_it1.index@ ==> !covers(#[trigger] items@[j], *range),
 //@ end
 
-//@ extract chunk_cache/src/disk.rs in `impl DiskCache` region validate_match
-//@ from `let idx_start = (range.start - cache_item.range.start) as usize;`
-//@ to-before `let stored = get_range_from_cache_file(`
-//@ sig `fn validate_match_lens(range: &ChunkRange, cache_item: &CacheItem, header: &CacheFileHeader, chunk_byte_indices: &[u32]) -> (r: Result<(), ChunkCacheError>)`
-//@ epilogue `Ok(())`
-//@ rules cacheacct.R18
-//@ contract
-    requires
-        cache_item.range.start <= range.start < range.end <= cache_item.range.end,   // checked at the top of validate_match
-        cache_item.range.end < u32::MAX,     // `range.end - start + 1` is computed in u32 (chunk indices of a xorb are far below 2^32)
-        // the stored file was written by put_impl for cache_item.range: one index per chunk boundary, deserialize accepted it
-        hdr_ok(header.chunk_byte_indices@), header.chunk_byte_indices@.len() == cache_item.range.end - cache_item.range.start + 1,
-        // put_impl validated its arguments
-        strictly_inc(chunk_byte_indices@), chunk_byte_indices@.len() == range.end - range.start + 1,
-    ensures
-        /*@C12*/ r is Ok <==> (forall|k: int| 0 <= k < range.end - range.start ==> {
-            let o = (range.start - cache_item.range.start) as int;
-            header.chunk_byte_indices@[o + k + 1] - header.chunk_byte_indices@[o + k] == #[trigger] chunk_byte_indices@[k + 1] - chunk_byte_indices@[k] }),
-        r is Err ==> r matches Err(ChunkCacheError::InvalidArguments),
-//@ loop 1
-        invariant
-            idx_start == range.start - cache_item.range.start, idx_end == range.end - cache_item.range.start + 1,
-            cache_item.range.start <= range.start < range.end <= cache_item.range.end, cache_item.range.end < u32::MAX,
-            hdr_ok(header.chunk_byte_indices@), header.chunk_byte_indices@.len() == cache_item.range.end - cache_item.range.start + 1,
-            strictly_inc(chunk_byte_indices@), chunk_byte_indices@.len() == range.end - range.start + 1,
-            forall|k: int| 0 <= k < vx_it1.index@ ==>
-                header.chunk_byte_indices@[idx_start + k + 1] - header.chunk_byte_indices@[idx_start + k] == #[trigger] chunk_byte_indices@[k + 1] - chunk_byte_indices@[k],
-//@ before `let stored_diff =`
-        proof {
-            lemma_inc_le(header.chunk_byte_indices@, i as int, i + 1);
-            lemma_inc_le(chunk_byte_indices@, i - idx_start, i + 1 - idx_start);
-        }
-//@ end
+// `validate_match`'s comparison loop is under contract in U-CACHEVALIDATE, together with the check (f3ea644) that establishes
+// "the stored header has one index per chunk boundary of the item's named range" — formerly an assumption of this unit.
 
 } // verus!
 fn main() {}
